@@ -174,6 +174,7 @@ static void op_revive(actor *a, int ui, int pool, int to)
     u->cancelled = 0;
     u->exited = 0;
     u->join_seen = 0;
+    u->cancel_ret_tick = 0;
     u->pool = pool;
     u->expect_pool = pool;
     u->cur_pool = pool;
@@ -247,6 +248,7 @@ static void op_chkpayload(actor *a, int ui, long v)
             viol("payload written by u%d before it terminated is not visible to its joiner", ui);
 }
 
+static uint64_t now_tick(void);
 /* ---- exit / cancel -------------------------------------------------------- */
 static void unit_finish_bookkeeping(actor *a, const char *how)
 {
@@ -279,6 +281,7 @@ static void op_cancel(actor *a, int ui)
     int rc = u->utype == U_ULT ? ABT_thread_cancel(u->h) : ABT_task_cancel((ABT_task)u->h);
     CHECK_RC(rc, "ABT_thread_cancel");
     u->cancel_ret_step = now_step();
+    u->cancel_ret_tick = now_tick();
     stat_add(was_done ? "cancel_after_end" : "cancels", 1);
     if (u->running)
         stat_add("cancel_while_running", 1);
